@@ -130,8 +130,15 @@ class Seq:
         raise Fault("first-empty")
 
     def __getitem__(self, i):
-        if not isinstance(i, int) or i < 0:
+        if isinstance(i, bool) or not isinstance(i, int):
             raise Unsupported("index")
+        if i < 0:
+            # Python counts from the end; past the beginning the query is undefined (a fault).  The generated code is
+            # additionally allowed to fail loudly on ANY negative index (see classify_event(loud_ok=...)).
+            items = list(self)
+            if -i > len(items):
+                raise Fault("index")
+            return items[i]
         for k, v in enumerate(self):
             if k == i:
                 return v
@@ -194,6 +201,7 @@ class RObj:
     def globalTrack(self): return self.link()
     def gsfTrack(self): return self.link()
     def echoD(self, v): return float(v)
+    def add2(self, a, b): return float(a) + float(b)
     def echoI(self, v): return v
     def echoL(self, v): return v
     def echoB(self, v): return v
@@ -256,6 +264,7 @@ def base_env():
         if not n.startswith("_") and callable(getattr(math, n)):
             env[n] = getattr(math, n)
     env["ln"] = math.log
+    env["vmtwice"] = lambda x: x * 2       # twin of the injected C++ function mc.lang.argscope.VMTWICE_MD declares
     env["MetaData"] = lambda src, md: src
     env["ResultTTree"] = lambda src, names, tree, fname: src
     return env
